@@ -1,5 +1,6 @@
 import Libp2pModel.Model.C08
 import Libp2pModel.Model.C09
+import Libp2pModel.Model.SwarmC08
 namespace Driver.C08
 open Drv
 open _root_.C08
@@ -117,4 +118,7 @@ def machine : Machine St Mon where
 
 end Driver.C08
 
-def main : IO Unit := Driver.C08.machine.run
+/-- component-level cases (ConcurrentDial / SmartDial) go to `Driver.C08.machine`, Swarm-level cases
+(header token `sw=1`, emitted through `h_swarm::core`) to the shared Swarm model with the C08 monitor -/
+def main : IO Unit :=
+  (Drv.Machine.sum (fun cfg => cfg.contains "sw=1") Driver.C08.machine Swarm.C08.machine).run
